@@ -199,6 +199,10 @@ type PayloadOpts struct {
 	TimeString bool   // RFC 3339 strings for the time claims (Auth0 compatibility form)
 	Reverse    bool   // reverse member order
 	Spaces     bool   // insert whitespace between members
+	Lead       string // insignificant JSON whitespace before the object
+	Trail      string // ... and after it (e.g. an encoder's trailing newline)
+	DupKey     bool   // a duplicate "sub" member first (the last one wins in encoding/json)
+	Escape     bool   // first character of sub / nonce written as a \\uXXXX escape
 	ExtraKey   string // JSON member that carries Claims.Extra ("ext" for tokens, "state" for request objects)
 	Scope      string // request objects: scope member
 }
@@ -224,8 +228,23 @@ func (c Claims) Payload(o PayloadOpts) []byte {
 			add(k, fmt.Sprint(v))
 		}
 	}
+	esc := func(k, v string) { // same string, first character as a unicode escape
+		if v == "" || !o.Escape || v[0] >= 0x80 {
+			str(k, v)
+			return
+		}
+		q := js(v[1:])
+		add(k, fmt.Sprintf("\"\\u%04x%s", v[0], q[1:]))
+	}
 	str("iss", c.Iss)
-	str("sub", c.Sub)
+	dup := o.DupKey && c.Sub != ""
+	if dup && !o.Reverse { // the shadowed duplicate must come first in the final order
+		add("sub", js("shadowed-"+c.Sub))
+	}
+	esc("sub", c.Sub)
+	if dup && o.Reverse {
+		add("sub", js("shadowed-"+c.Sub))
+	}
 	if len(c.Aud) == 1 && o.AudSingle {
 		add("aud", js(c.Aud[0]))
 	} else if len(c.Aud) > 0 {
@@ -235,7 +254,7 @@ func (c Claims) Payload(o PayloadOpts) []byte {
 	tm("exp", c.Exp)
 	tm("iat", c.Iat)
 	tm("auth_time", c.AuthT)
-	str("nonce", c.Nonce)
+	esc("nonce", c.Nonce)
 	str("acr", c.Acr)
 	str("at_hash", c.AtHash)
 	str("client_id", c.ClientID)
@@ -253,7 +272,7 @@ func (c Claims) Payload(o PayloadOpts) []byte {
 	if o.Spaces {
 		sep = " ,\n "
 	}
-	return []byte("{" + strings.Join(m, sep) + "}")
+	return []byte(o.Lead + "{" + strings.Join(m, sep) + "}" + o.Trail)
 }
 
 // ---------------------------------------------------------------- tokens
@@ -554,7 +573,8 @@ type StoreEntry struct {
 
 // KeySetDesc describes a library key set (Gallina: C02_Jws.keyset).
 type KeySetDesc struct {
-	Kind       string // openid | remote | profile
+	Kind       string // openid | remote | profile | static
+	Static     JWK    // static: the one key a caller-supplied key set verifies under
 	Keys       []JWK  // openid
 	KeysErr    bool   // openid: Storage.KeySet fails
 	Cached     []JWK  // remote
@@ -572,6 +592,8 @@ func (d KeySetDesc) Coq() string {
 			return emit.Ctor("KSOpenID", emit.None)
 		}
 		return emit.Ctor("KSOpenID", emit.Some(JWKList(d.Keys)))
+	case "static":
+		return emit.Ctor("KSStatic", d.Static.Coq())
 	case "remote":
 		sv := emit.Some(JWKList(d.Served))
 		if d.ServedFail {
@@ -701,12 +723,22 @@ func SetWarm(p *Pool) {
 	}
 }
 
+// staticKeySet is a caller-supplied oidc.KeySet: go-jose verification under one
+// fixed key (public key or shared secret), whatever the header says.
+type staticKeySet struct{ key any }
+
+func (k staticKeySet) VerifySignature(_ context.Context, jws *jose.JSONWebSignature) ([]byte, error) {
+	return jws.Verify(k.key)
+}
+
 // Build constructs the real library key set (openid, remote). For remote key
 // sets with a non-empty cache it first lets the library fetch the Cached list.
 func (d KeySetDesc) Build() oidc.KeySet {
 	switch d.Kind {
 	case "openid":
 		return &op.OpenIDKeySet{Storage: &FakeStorage{Keys: d.Keys, KeysErr: d.KeysErr}}
+	case "static":
+		return staticKeySet{d.Static.Material()}
 	case "remote":
 		ks, ep := NewRemote(d.Skip)
 		if len(d.Cached) > 0 {
